@@ -5,7 +5,7 @@ from . import common
 LEVEL = "other"
 EXPLANATION = ("PARTIAL. Decided (bounded, K5, compositions of <= 3 / 5 elements): the outer CompoundParser given the assumed contract of "
                "the scanner - elements ascending as scanned, total atom count, molar mass, mass fraction = count x atomic weight / molar "
-               "mass (bit-exact), fractions are numbers, NULL iff exactly one error, elements without an atomic weight rejected, the scanner "
+               "mass (bit-exact: attempted in the thorough tier only, no back end finishes), fractions are numbers, molar mass positive, NULL iff exactly one error, elements without an atomic weight rejected, the scanner "
                "runs under the C numeric locale and the caller's locale is restored (ghost model of setlocale), temporaries freed on both "
                "outcomes (--memory-leak-check). NOT decided by this family: everything inside the scanner CompoundParserSimple - acceptance of "
                "well-formed formulas, the rejection classes, atom counts equal to the algebraic expansion, invariance under reordering and "
@@ -29,4 +29,8 @@ def groups(sc, tier):
         kw2 = dict(kw)
         kw2["harness_defines"] = kw["harness_defines"] + ["-DNEL=%d" % k]
         gs.append(Group("C07.K5.CompoundParser.%d_elements" % k, "K5", "lemma_CompoundParser", functions=["CompoundParser", "FreeCompoundData"], **kw2))
+        kw3 = dict(kw2)
+        kw3["harness_defines"] = kw2["harness_defines"] + ["-DVALUE_LEMMA"]
+        gs.append(Group("C07.K5.CompoundParser_values.%d_elements" % k, "K5", "lemma_CompoundParser", functions=["CompoundParser"],
+                        attempt_only=True, note="bit-exact molar mass and mass fractions: no back end finishes (heap arrays between code and specification)", **kw3))
     return gs
